@@ -176,7 +176,7 @@ class Verifier(Engine, StmtMixin, ExprMixin, CallMixin, BuiltinMixin):
                     body = self.region_statements(node, c.region)
                     rep['region'] = f'L{body[0].lineno}-L{body[-1].end_lineno}: statements of {c.qualname} between the markers; ' \
                                     'everything before/after is outside this obligation set'
-                is_gen = any(isinstance(n, (ast.Yield, ast.YieldFrom)) for b_ in body for n in ast.walk(b_)) and not c.region
+                is_gen = any(isinstance(n, (ast.Yield, ast.YieldFrom)) for b_ in body for n in ast.walk(b_))
                 if is_gen:
                     gty = parse_type(c.returns, self.reg.enums) if c.returns else None
                     if not isinstance(gty, TSeq):
